@@ -327,6 +327,29 @@ class Rewriter:
         self.hit('W6', n)
         return text
 
+    # ---- W6p: Iterator::position over `.iter()` -> index loop (std definition of `position`) ---------
+    def w6p(self, text):
+        m = mask(text)
+        n = 0
+        for mm in reversed(list(re.finditer(r'\.\s*iter\(\)\s*\.\s*position\(', m))):
+            op = mm.end() - 1
+            cl = match_close(m, op)
+            rs = _recv_start(m, mm.start())
+            recv = text[rs:mm.start()].strip()
+            arg = text[op + 1:cl].strip()
+            cm = re.match(r'\|\s*(.+?)\s*\|\s*(.*)$', arg, re.S)
+            if not cm:
+                raise Unsupported('W6p: position argument is not a closure')
+            pat, pred = cm.group(1), cm.group(2).strip()
+            loop = ('{\n        let mut i__: usize = 0;\n        let mut r__: Option<usize> = None;\n'
+                    '        while i__ < %s.len() && r__.is_none() {\n'
+                    '            let %s = &%s[i__];\n'
+                    '            if %s { r__ = Some(i__); } else { i__ += 1; }\n        }\n        r__\n    }' % (recv, pat, recv, pred))
+            text = text[:rs] + loop + text[cl + 1:]
+            n += 1
+        self.hit('W6p', n)
+        return text
+
     # ---- W8: awaiting a futures oneshot receiver -> stand-in method ---------------------------------
     def w8(self, text):
         t, k = re.subn(r'\b(\w*receiver)\s*\.await\b', r'\1.recv().await', text)
